@@ -745,6 +745,49 @@ func verifAssume(cond bool) {}
 //@   ensures [C03] @installs result == b && b.externalAuth == a
 //@   ensures [C03] @addsonlythis inset(elems(b.config.SchemeOpts), AuthenticationSchemeExternal) && subset(old(elems(b.config.SchemeOpts)), elems(b.config.SchemeOpts)) && len(b.config.SchemeOpts) <= old(len(b.config.SchemeOpts)) + 1 && (old(inset(elems(b.config.SchemeOpts), AuthenticationSchemeExternal)) ==> len(b.config.SchemeOpts) == old(len(b.config.SchemeOpts)))
 
+// Adding a listener adds a listener: the negotiation policy, the scheme list and the
+// callbacks of the configuration are outside the frame of the Listen* setters (C09/C10:
+// the policy is server-wide, so a setter that widens it for one transport widens it for all).
+//@ spec fn badBoundListenerArgs(listener TransportListener, addr net.Addr) bool = uninterpreted  ## nil listener or zero address (reflect)
+//@ func NewBoundListener :: (listener, addr) (result)
+//@   props C09 C10
+//@   trusted reflection-based nil/zero checks around a struct literal
+//@   panics only-if badBoundListenerArgs(listener, addr)
+//@   modifies nothing
+//@ func NewTCPTransportListener :: (config) (result)
+//@   props C09 C10
+//@   trusted constructor of a listener object; nothing is listened on yet
+//@   modifies nothing
+//@   ensures result != nil
+//@ func NewWebsocketTransportListener :: (config) (result)
+//@   props C09 C10
+//@   trusted constructor of a listener object; nothing is listened on yet
+//@   modifies nothing
+//@   ensures result != nil
+//@ func NewInProcessTransportListener :: (addr) (result)
+//@   props C09 C10
+//@   trusted constructor of a listener object; nothing is listened on yet
+//@   modifies nothing
+//@   ensures result != nil
+//@ func (*ServerBuilder).ListenTCP :: (b, addr, config) (result)
+//@   props C09 C10
+//@   requires b != nil
+//@   panics only-if true
+//@   modifies b.listeners
+//@   ensures [C09,C10] @onlyaddslistener result == b && len(b.listeners) == old(len(b.listeners)) + 1
+//@ func (*ServerBuilder).ListenWebsocket :: (b, addr, config) (result)
+//@   props C09 C10
+//@   requires b != nil
+//@   panics only-if true
+//@   modifies b.listeners
+//@   ensures [C09,C10] @onlyaddslistener result == b && len(b.listeners) == old(len(b.listeners)) + 1
+//@ func (*ServerBuilder).ListenInProcess :: (b, addr) (result)
+//@   props C09 C10
+//@   requires b != nil
+//@   panics only-if true
+//@   modifies b.listeners
+//@   ensures [C09,C10] @onlyaddslistener result == b && len(b.listeners) == old(len(b.listeners)) + 1
+
 // The negotiation policy a server is built with is exactly the one the application
 // configured (C09/C10): the option setters replace the list with the caller's, they
 // do not merge it with the defaults of NewServerConfig (which include `none`).
